@@ -576,6 +576,15 @@ func (m *Monitors) checkNewViewProduced(n *RealNode, x *interfaces.NewViewMessag
 			m.viol("C09", "newview-does-not-repropose-highest", fmt.Sprintf("correct leader node %d proposed a block other than the highest prepared one among the votes it embeds", n.Idx))
 		}
 	}
+	// C09: the NEW_VIEW embeds exactly the votes the leader counted: each embedded vote must still be the
+	// vote its sender signed (an altered or mixed-up vote no longer verifies)
+	it := x.Content().SignedHeader().ViewChangeConfirmationsIterator()
+	for it.HasNext() {
+		cv := it.NextViewChangeConfirmations()
+		if ok, why := m.voteValid(n, cv, h, uint64(x.View())); !ok {
+			m.viol("C09", "newview-embeds-altered-vote", fmt.Sprintf("correct leader node %d embedded a vote of %x that is not the vote it counted (%s)", n.Idx, cv.Sender().MemberId(), why))
+		}
+	}
 	m.net.c.Nontrivial("c09/newview-produced")
 }
 
@@ -605,6 +614,16 @@ func (m *Monitors) oneCommit(n *RealNode, id string) {
 		m.decided[h][id] = co.Block
 		net.c.Nontrivial(fmt.Sprintf("commit/h%d/n%d", h, n.Idx))
 		net.c.Class("commit")
+		// --- C04: the delivered block has the height being decided and matches the certified hash
+		{
+			bp := protocol.BlockProofReader(co.Proof)
+			func() {
+				defer func() { recover() }()
+				if !bytes.Equal(bp.BlockRef().BlockHash(), blockHash(co.Block)) || uint64(bp.BlockRef().BlockHeight()) != co.Block.H {
+					m.viol("C04", "committed-block-does-not-match-certificate", fmt.Sprintf("height %d: node %d delivered block %d under a certificate for another hash/height", h, n.Idx, co.Block.Id))
+				}
+			}()
+		}
 		// --- C04: external validity
 		approved := false
 		for _, o := range net.order {
